@@ -100,10 +100,45 @@ pub fn run(ws: &[&str]) -> String {
         _ => return BAD.into(),
     };
     let (a1, a2, a3) = (ws[10], ws[11], ws[12]);
-    let scopes: Vec<Scope> = match untok_list_str(ws[13]) {
-        Some(l) => l.into_iter().map(Scope::new).collect(),
-        None => return BAD.into(),
-    };
+    // a plan of builder calls: s:x.. = add_scope, m:<list> = add_scopes
+    let mut plan: Vec<Vec<Scope>> = vec![];
+    let mut plan_single: Vec<bool> = vec![];
+    if ws[13] != "." {
+        for op in ws[13].split('|') {
+            if let Some(r) = op.strip_prefix("s:") {
+                match untok_str(r) {
+                    Some(s) => {
+                        plan.push(vec![Scope::new(s)]);
+                        plan_single.push(true);
+                    }
+                    None => return BAD.into(),
+                }
+            } else if let Some(r) = op.strip_prefix("m:") {
+                match untok_list_str(r) {
+                    Some(l) => {
+                        plan.push(l.into_iter().map(Scope::new).collect());
+                        plan_single.push(false);
+                    }
+                    None => return BAD.into(),
+                }
+            } else {
+                return BAD.into();
+            }
+        }
+    }
+    macro_rules! apply_plan {
+        ($req:expr) => {{
+            let mut req = $req;
+            for (chunk, single) in plan.iter().zip(plan_single.iter()) {
+                if *single {
+                    req = req.add_scope(chunk[0].clone());
+                } else {
+                    req = req.add_scopes(chunk.clone());
+                }
+            }
+            req
+        }};
+    }
     let extras = match untok_pairs(ws[14]) {
         Some(e) => e,
         None => return BAD.into(),
@@ -182,13 +217,7 @@ pub fn run(ws: &[&str]) -> String {
                         Some(t) => RefreshToken::new(t),
                         None => return BAD.into(),
                     };
-                    let mut req = client.exchange_refresh_token(&t);
-                    // first scope with add_scope, the rest with add_scopes: both builder paths
-                    let mut it = scopes.clone().into_iter();
-                    if let Some(s) = it.next() {
-                        req = req.add_scope(s);
-                    }
-                    req = req.add_scopes(it);
+                    let req = apply_plan!(client.exchange_refresh_token(&t));
                     finish!(req);
                 }
                 "password" => {
@@ -196,14 +225,11 @@ pub fn run(ws: &[&str]) -> String {
                         (Some(u), Some(p)) => (ResourceOwnerUsername::new(u), ResourceOwnerPassword::new(p)),
                         _ => return BAD.into(),
                     };
-                    let mut req = client.exchange_password(&u, &p);
-                    for s in scopes.clone() {
-                        req = req.add_scope(s);
-                    }
+                    let req = apply_plan!(client.exchange_password(&u, &p));
                     finish!(req);
                 }
                 "cc" => {
-                    let req = client.exchange_client_credentials().add_scopes(scopes.clone());
+                    let req = apply_plan!(client.exchange_client_credentials());
                     finish!(req);
                 }
                 _ => {
@@ -231,7 +257,7 @@ pub fn run(ws: &[&str]) -> String {
                 Err(_) => return BAD.into(),
             };
             let client = base_client!(BasicClient).set_device_authorization_url(url);
-            let mut req = client.exchange_device_code().add_scopes(scopes.clone());
+            let mut req = apply_plan!(client.exchange_device_code());
             for (k, v) in extras.iter() {
                 req = req.add_extra_param(k.clone(), v.clone());
             }
